@@ -393,6 +393,23 @@ func (g *Graph) FindPath(from []Node, avoid func(Node) bool, target func(Node) b
 		}
 		return strings.Join(keep, "")
 	}
+	phiCells := func(cells string, f *Frame, pred, succ *ssa.BasicBlock) string {
+		for _, in := range succ.Instrs {
+			ph, ok := in.(*ssa.Phi)
+			if !ok {
+				break
+			}
+			if !isErrorType(ph.Type()) || len(ph.Edges) < 2 || g.onCycle(succ) {
+				continue
+			}
+			for i, p := range succ.Preds {
+				if p == pred && i < len(ph.Edges) && errSource(ph.Edges[i]) != nil {
+					cells = setCell(cells, cellKey{f: f, ph: ph}, ph.Edges[i])
+				}
+			}
+		}
+		return cells
+	}
 	defer func() { g.pathCells = nil }()
 	ids := map[fid]int{}
 	var idOwner []*Frame
@@ -512,7 +529,7 @@ func (g *Graph) FindPath(from []Node, avoid func(Node) bool, target func(Node) b
 		cells := cur.cells
 		if st, ok := n.Instr.(*ssa.Store); ok {
 			if al, ok := st.Addr.(*ssa.Alloc); ok && g.trackedCell(al) {
-				cells = setCell(cells, cellKey{n.F, al}, st.Val)
+				cells = setCell(cells, cellKey{f: n.F, al: al}, st.Val)
 			}
 		}
 		if iff, ok := n.Instr.(*ssa.If); ok {
@@ -544,7 +561,7 @@ func (g *Graph) FindPath(from []Node, avoid func(Node) bool, target func(Node) b
 					} else {
 						facts = add(facts, id, val)
 					}
-					s := state{g.first(n.F, sb), facts, cur.cells}
+					s := state{g.first(n.F, sb), facts, phiCells(cur.cells, n.F, iff.Block(), sb)}
 					if !seen[kf(s)] {
 						seen[kf(s)] = true
 						cc := cur
@@ -564,6 +581,13 @@ func (g *Graph) FindPath(from []Node, avoid func(Node) bool, target func(Node) b
 					facts = dropFrame(facts, sn.F)
 				}
 				cs = dropCells(cs, sn.F)
+			}
+			// an edge into a block with error-typed phis: remember what this edge carries
+			switch n.Instr.(type) {
+			case *ssa.If, *ssa.Jump:
+				if sn.F == n.F && sn.Instr != nil && sn.Instr.Block() != n.Instr.Block() {
+					cs = phiCells(cs, n.F, n.Instr.Block(), sn.Instr.Block())
+				}
 			}
 			s := state{sn, facts, cs}
 			if !seen[kf(s)] {
@@ -644,6 +668,8 @@ func (g *Graph) onCycle(b *ssa.BasicBlock) bool {
 type cellKey struct {
 	f  *Frame
 	al *ssa.Alloc
+	// ph: instead of a local cell, an error-typed phi: what the path's edge into the phi's block carried
+	ph *ssa.Phi
 }
 
 // trackedCell: a local cell of type error with more than one store.
@@ -692,6 +718,17 @@ func (g *Graph) errCellTest(f *Frame, cond ssa.Value) (ssa.Value, bool, bool) {
 	} else {
 		return nil, false, false
 	}
+	if ph, isPhi := x.(*ssa.Phi); isPhi && isErrorType(ph.Type()) && g.pathCells != nil {
+		v := g.pathCells[cellKey{f: f, ph: ph}]
+		in, isInstr := v.(ssa.Instruction)
+		if v == nil || !isInstr || in.Block() == nil || g.onCycle(in.Block()) {
+			return nil, false, false
+		}
+		if b.Op == token.EQL {
+			truth = !truth
+		}
+		return v, truth, true
+	}
 	u, isLoad := x.(*ssa.UnOp)
 	if !isLoad || u.Op != token.MUL || !isErrorType(u.Type()) {
 		return nil, false, false
@@ -709,7 +746,7 @@ func (g *Graph) errCellTest(f *Frame, cond ssa.Value) (ssa.Value, bool, bool) {
 		}
 	}
 	if v == nil && g.pathCells != nil {
-		v = g.pathCells[cellKey{f, al}]
+		v = g.pathCells[cellKey{f: f, al: al}]
 	}
 	if v == nil {
 		return nil, false, false
@@ -745,6 +782,14 @@ func (f *Frame) ErrEdgeOnPath(iff *ssa.If, idx int) (call *ssa.Call, nonNil bool
 	} else {
 		return nil, false, false
 	}
+	if ph, isPhi := x.(*ssa.Phi); isPhi {
+		if v, have := f.G.pathCells[cellKey{f: f, ph: ph}]; have {
+			if c := errSource(v); c != nil {
+				return c, (b.Op == token.NEQ) == (idx == 0), true
+			}
+		}
+		return nil, false, false
+	}
 	u, isLoad := x.(*ssa.UnOp)
 	if !isLoad || u.Op != token.MUL {
 		return nil, false, false
@@ -754,7 +799,7 @@ func (f *Frame) ErrEdgeOnPath(iff *ssa.If, idx int) (call *ssa.Call, nonNil bool
 		return nil, false, false
 	}
 	// a store between the load and the start of its block decides locally (ErrEdge did not find one)
-	v, have := f.G.pathCells[cellKey{f, al}]
+	v, have := f.G.pathCells[cellKey{f: f, al: al}]
 	if !have {
 		return nil, false, false
 	}
